@@ -17,6 +17,7 @@ META = {
     "not_decided": "structure/order equality for all documents; doubles within 1 ulp",
     "assumptions": [],
 }
+META["explanation"] += " " + '(TB-casepair) wherever the number scanner tests one spelling of the exponent marker (e / E) it tests the other in the same arm or condition.'
 
 STRUCT = {"QuoteChar": '"', "CommaChar": ",", "ColonChar": ":", "SCurlyChar": "{", "ECurlyChar": "}",
           "SSquareChar": "[", "ESquareChar": "]", "SlashChar": "/", "BSlashChar": "\\",
